@@ -497,6 +497,7 @@ class C04(Plugin):
         if rng.random() < 0.3:
             cfg['base_opts'] = dict(cfg['base_opts'], trivia=O.enc_opts({'t': O.gen_trivia(rng)})['t'])
         cfg['forms'] = ('src', 'src', 'fst')
+        cfg['p_semi'] = rng.choice([0.0, 0.1, 0.3])
         return cfg
 
     def start(self):
@@ -569,6 +570,25 @@ class C04(Plugin):
     def gen_op(self, rng):
         run = self.run
         cfg = dict(run.cfg, uniq=self.uniq)
+        if rng.random() < run.cfg.get('p_semi', 0):
+            # statements that share a line through ';' take separate code paths in the statement editor: aim at one of
+            # them, with a trivia value from the whole grammar (trailing '+N' forms included)
+            lines = run.root.src.split('\n')
+            c = []
+            for path, node, parent, field, idx in O.all_nodes(run.root.a):
+                if isinstance(node, ast.stmt) and idx is not None and 0 < node.lineno <= len(lines):
+                    ln = lines[node.lineno - 1]
+                    before = ln.encode()[:node.col_offset].decode(errors='ignore').rstrip()
+                    after = lines[node.end_lineno - 1].encode()[node.end_col_offset:].decode(errors='ignore').lstrip() if node.end_lineno <= len(lines) else ''
+                    if before.endswith(';') or after.startswith(';'):
+                        c.append(path)
+            if c:
+                path = rng.choice(c)
+                k = rng.choice(['remove', 'cut', 'replace', 'replace'])
+                op = {'k': k, 'path': [list(p) for p in path], 'opts': O.enc_opts({'trivia': O.gen_trivia(rng)})}
+                if k == 'replace':
+                    op['code'] = O.gen_code(rng, 'stmt', 1, cfg.get('forms', ('src', 'src', 'fst')), self.uniq)
+                return op
         return O.gen_edit(rng, run.root.a, cfg)
 
     def pre_op(self, op):
